@@ -233,15 +233,34 @@ def fold_python_option(idx: Index):
             it.globals["_get_since"] = ("host", lambda *a, **k: [])
             it.globals["_get_indented_documentation"] = ("host", lambda *a, **k: None)
             spec = Record("LSPModel", {"structures": [], "typeAliases": [], "enumerations": [], "requests": [], "notifications": []})
-            self_rec = Record("TypesCodeGenerator", {"_lsp_model": spec, "_process_literal_types": ("host", lambda *a, **k: None)},
+            stubs = {"_lsp_model": spec, "_process_literal_types": ("host", lambda *a, **k: None)}
+            # class-level tables (kind -> method, name -> spelling) are attributes of the instance too
+            cenv = {k: Closure(x, None, it) for k, x in methods.items()}
+            for cst in cls.body:
+                if isinstance(cst, (ast.Assign, ast.AnnAssign)) and getattr(cst, "value", None) is not None:
+                    tg = cst.targets[0] if isinstance(cst, ast.Assign) else cst.target
+                    if isinstance(tg, ast.Name) and tg.id not in stubs:
+                        try:
+                            stubs[tg.id] = it.eval(cst.value, dict(cenv))
+                            cenv[tg.id] = stubs[tg.id]
+                        except (Raised, AnalysisError):
+                            pass
+            self_rec = Record("TypesCodeGenerator", stubs,
                               {"TypesCodeGenerator": {k: v for k, v in methods.items() if k != "_process_literal_types"}})
             it.classes["TypesCodeGenerator"] = self_rec.classes["TypesCodeGenerator"]
+            if "__init__" in methods:
+                try:
+                    it.call(methods["__init__"], [self_rec] + [spec] * (len(methods["__init__"].args.args) - 1))
+                except (Raised, AnalysisError):
+                    pass
+                self_rec.fields["_lsp_model"] = spec
+                self_rec.fields["_process_literal_types"] = stubs["_process_literal_types"]
             prop = Record("Property", {"name": "someProp", "type": _deepcopy(ty), "optional": optional, "documentation": None,
                                        "since": None, "sinceTags": None, "proposed": None, "deprecated": None})
             try:
                 lines = it.call(methods["_generate_properties"], [self_rec, "SomeClass", [prop], "    "])
             except Raised as e:
-                out[(sname, optional, null_adm)] = f"raises {e.exc_name}"
+                out[(sname, optional, null_adm)] = f"raises {e.exc_name}{e.exc_args!r}"
                 continue
             out[(sname, optional, null_adm)] = next((l.strip() for l in it.iterate(lines)
                                                      if isinstance(l, str) and l.strip().startswith("some_prop:")), "")
